@@ -2,6 +2,13 @@
 //@serves C30 C16
 use vstd::prelude::*;
 verus! {
+// std specifications not in vstd (A-std)
+pub assume_specification<T, F: FnOnce(T) -> bool> [Option::<T>::is_some_and] (o: Option<T>, f: F) -> (r: bool)
+    requires o.is_some() ==> f.requires((o.unwrap(),))
+    ensures o.is_none() ==> !r, o.is_some() ==> f.ensures((o.unwrap(),), r);
+pub assume_specification<T, F: FnOnce(T) -> bool> [Option::<T>::is_none_or] (o: Option<T>, f: F) -> (r: bool)
+    requires o.is_some() ==> f.requires((o.unwrap(),))
+    ensures o.is_none() ==> r, o.is_some() ==> f.ensures((o.unwrap(),), r);
 //@src node/src/p2p/header_ex.rs
 
 // ---------------------------------------------------------------------------
@@ -138,6 +145,13 @@ pub async fn vx_timed_read(io: &mut Stream, buf: &mut Vec<u8>, from: usize, t: D
 { unimplemented!() }
 #[derive(Clone, Copy)]
 pub struct Duration { pub d: u64 }
+impl Duration {
+    // std::cmp::Ord::max / min on Duration (A-std)
+    #[verifier::external_body]
+    pub fn max(self, o: Duration) -> (r: Duration) ensures r.d == (if self.d >= o.d { self.d } else { o.d }) { unimplemented!() }
+    #[verifier::external_body]
+    pub fn min(self, o: Duration) -> (r: Duration) ensures r.d == (if self.d <= o.d { self.d } else { o.d }) { unimplemented!() }
+}
 impl Duration {
     #[verifier::external_body]
     pub fn checked_sub(self, o: Duration) -> Option<Duration> { unimplemented!() }
